@@ -56,6 +56,23 @@ CHECKS = {
         "assumptions": COMMON_ASSUMPTIONS + ["Members poll sequentially in a seeded order (the statement quantifies over poll orders, not over concurrent polls).",
                                              "A dropped socket is noticed by the server on its next read: the disconnect clause waits a bounded number of retries (200 x 5 ms)."],
     },
+    "C04": {
+        "level": "fault_enumeration",
+        "budget": {"quick": 60, "thorough": 1200},
+        "min_histories": {"quick": 10, "thorough": 200},
+        "min_events": {"quick": {"images_recovered": 200}, "thorough": {"images_recovered": 5000}},
+        "unit": "workload histories whose every file-mutation point was turned into a crash image",
+        "rule": ("Short workloads (sends around save thresholds and roll-overs, flush, background save, consumer-offset stores, purge, topic create/delete; wait and no-wait, fsync on/off, index cache on/off) run on a "
+                 "single-worker server runtime with hook H3 armed: after EVERY file mutation the server performs (log append, index append, persister append/overwrite/delete, segment create/delete) the data directory is frozen "
+                 "(crash image), together with the acknowledged model and the operation in flight. From each image torn variants are derived by cutting the last written file back to intermediate lengths (all of them for writes "
+                 "<= 64 bytes, header boundaries + seeded lengths beyond; quick recovers every image and a seeded third of the torn sets, thorough all). Every image is recovered by a fresh incarnation: start-up must not panic or "
+                 "hang (an untorn image must start), the catalogue must hold the acknowledged entities, each partition's scan must be a gap-free content-identical prefix of accepted (+ in-flight) messages containing everything "
+                 "whose log and index write had completed (wait mode), 1-3 sends after recovery must continue at the next offset with nothing served twice, recovered consumer offsets must be values once stored. "
+                 "evaluations = workload histories; distinct_nontrivial = distinct (configuration class, set of mutation kinds that produced images)."),
+        "assumptions": COMMON_ASSUMPTIONS + ["Process-crash model: whatever a write call had handed to the kernel survives; power-loss reordering of un-fsynced pages and torn writes inside a file other than the last one written are out of reach.",
+                                             "The server runs on a single worker thread during the workload so that the synchronous copy in the hook cannot interleave with later file operations (it would fabricate images no crash can produce).",
+                                             "Images taken while a purge is in flight are judged leniently (either side of the purge)."],
+    },
     "C11": {
         "level": "fault_enumeration",
         "budget": {"quick": 50, "thorough": 900},
@@ -159,6 +176,9 @@ MANIFEST_TEXT = {
     "C06": {"level_text": "Exploration: every catalogue command is judged by a sequential reference catalogue (valid => accepted, invalid => refused and a full dump unchanged), ids returned must be fresh, lookups by id and by name must agree, deletes must cascade to directories and client memberships, no server panic.",
             "design_ref": "DESIGN.md §4 C06", "level_note": _DATA_NOTE,
             "technique": "runtime monitoring: sequential reference catalogue with full read-back"},
+    "C04": {"level_text": "Fault enumeration: every file-mutation point of every workload history becomes a crash image (plus torn variants of the last write), each recovered by a fresh incarnation of the real server and judged against the acknowledged model: start-up succeeds, consistent catalogue, gap-free content-identical prefix containing every completed wait-mode write, traffic continues at the next offset, no garbage offsets.",
+            "design_ref": "DESIGN.md §4 C04", "level_note": "Trusted base: hook H3 (file-mutation events) and the single-worker image protocol; process-crash model (kernel page cache survives).",
+            "technique": "runtime monitoring with crash-point enumeration: hooked file-mutation events -> directory images -> real recovery -> model oracle"},
     "C08": {"level_text": "Exploration: after every join/leave/disconnect/partition change the group structure reported by the server is checked (members, exclusive and complete assignment, even shares); every member poll must be served from its own share in rotation; next+auto-commit delivery across all members is checked per partition as exactly 0,1,2,... with the right content, and a final drain must hand over everything.",
             "design_ref": "DESIGN.md §4 C08", "level_note": _DATA_NOTE,
             "technique": "runtime monitoring: structural invariants on reported group state + exactly-once delivery checker"},
@@ -178,5 +198,5 @@ MANIFEST_TEXT = {
 
 NOT_APPLICABLE = [
     {"property_id": p, "reason": "check under construction in this framework (not yet claimed)"}
-    for p in ["C04", "C13", "C20"]
+    for p in ["C13", "C20"]
 ]
